@@ -18,13 +18,17 @@ THOROUGH_SCALE = 4
 CRASH_IS_VIOLATION = False
 STARTERS = [["Borda"], ["Copeland"], ["KwikSort"], ["PickAPerm"], ["Borda", "Copeland", "KwikSort"], ["Pulp"],
             ["BioConsert"], [], [], ["BioCo!"], ["Borda", "BordaBucket"], ["BordaBucket", "Borda"], ["KwikSort", "KwikSort"],
-            ["BioConsert[Borda]", "BioConsert[Copeland]"], ["Copeland", "BordaBucket", "PickAPerm"]]
+            ["BioConsert[Borda]", "BioConsert[Copeland]"], ["Copeland", "BordaBucket", "PickAPerm"],
+            # starters that share a class / a full name but not a configuration; the last one is a global optimum, so a
+            # starter that is silently dropped or overwritten shows as a strictly worse result
+            ["BioConsert[Borda]", "BioConsert[Pulp]"], ["BioConsert[KwikSort]", "BioConsert[Pulp]"],
+            ["BioConsert[Copeland]", "BioConsert[Pulp]"], ["Borda", "Pulp"], ["Exact", "Pulp"]]
 TIMEOUT = {"quick": 900, "thorough": 5400}
 
 
 def plan(tier, seed):
     if tier == "quick":
-        return [{"n_cases": 170, "mode": "A", "hashseed": i % 3} for i in range(8)]
+        return [{"n_cases": 300, "mode": "A", "hashseed": i % 3} for i in range(8)]
     return [{"n_cases": 2200, "mode": "A", "hashseed": i % 4} for i in range(14)] + \
            [{"n_cases": 1200, "mode": "B", "hashseed": i} for i in range(2)]
 
@@ -86,7 +90,8 @@ def check_case(case, ctx):
         st, cons = call(lambda: ck.BioCo().compute_consensus_rankings(dataset, scheme, False))
         label = "BioCo"
     elif starters:
-        proxies = [make_proxy(libx.make_algorithm(s), log) for s in starters]
+        logs = [[] for _ in starters]
+        proxies = [make_proxy(libx.make_algorithm(s), lg) for s, lg in zip(starters, logs)]
         st, cons = call(lambda: ck.BioConsert(starting_algorithms=proxies).compute_consensus_rankings(dataset, scheme, False))
         label = "BioConsert[" + ",".join(starters) + "]"
     else:
@@ -119,10 +124,17 @@ def check_case(case, ctx):
         if stb == "ok":
             starts.append(("Borda", libx.raw_ranking(cb.consensus_rankings[0])))
     elif starters:
-        if len(log) < len(starters):
-            ctx.count("proxy_saw_no_call")
-        for name, got in zip(starters, log):
-            starts.append((name, got[0]))
+        for name, lg in zip(starters, logs):
+            if lg:
+                starts.append((name, lg[0][0]))
+            else:
+                # the statement speaks of each starting algorithm's own consensus, whether or not BioConsert asked for
+                # it: a starter that received no call is run here (only if it is deterministic)
+                ctx.count("proxy_saw_no_call")
+                if "KwikSort" not in name:
+                    sts, cs = call(lambda nm=name: libx.make_algorithm(nm).compute_consensus_rankings(dataset, scheme, True))
+                    if sts == "ok":
+                        starts.append((name + " (never called by BioConsert)", libx.raw_ranking(cs.consensus_rankings[0])))
     else:
         for i, u in enumerate(ref.unify(ds)):
             starts.append((f"unified input #{i}", u))
@@ -169,5 +181,6 @@ def reach(counters, tier, info):
         v = counters.get("runs:" + label, 0)
         out.append({"name": f"runs of {label}", "observed": v, "required": 80 * k, "ok": v >= 80 * k})
     v = counters.get("proxy_saw_no_call", 0)
-    out.append({"name": "runs where a starter proxy saw no call", "observed": v, "required": 0, "ok": v == 0})
+    out.append({"name": "starters that received no call from BioConsert (advisory; their own consensus is then computed "
+                        "by the check)", "observed": v, "required": 0, "ok": v == 0, "gating": False})
     return out
